@@ -933,6 +933,10 @@ class SetIndex(BaseSetIndexSortValues):
             return self._filter_simplification(parent)
 
     def _filter_passthrough_available(self, parent, dependents):
+        if isinstance(self._other, Expr):
+            # The new index is a separate Series expression that would have to
+            # be filtered as well
+            return False
         if is_filter_pushdown_available(self, parent, dependents):
             from dask_expr._expr import Index
 
